@@ -1,6 +1,7 @@
 import TlxVerif.Model.Drv
 import TlxVerif.Model.C18Spec
 import TlxVerif.Model.C18StringView
+import TlxVerif.Model.C18Huge
 open TlxVerif TlxVerif.C18
 
 /-!
@@ -253,18 +254,134 @@ def answer (I : Impl) (op : String) (h : Bytes) (n : Option Bytes) : Option Stri
   | "acc", some n => some (opAcc I h n)
   | _, _ => none
 
+/-! ### view tokens: `<hex>@off:len` = sub-view of a buffer, `@off:len` = view of the haystack's buffer -/
+
+def parseOffLen (t : String) : Option (Nat × Nat) :=
+  match t.splitOn ":" with
+  | [a, b] => do
+    if a.length > 20 ∨ b.length > 20 then none
+    let x ← a.toNat?
+    let y ← b.toNat?
+    pure (x, y)
+  | _ => none
+
+/-- (buffer, view bytes) of a haystack token -/
+def parseHay (tok : String) : Option (Bytes × Bytes) :=
+  if tok = "null" then some ([], [])
+  else match tok.splitOn "@" with
+    | [h] => do let b ← parseBytes h; pure (b, b)
+    | [h, ol] => do
+      let b ← parseBytes h
+      let (o, l) ← parseOffLen ol
+      if o > b.length ∨ l > b.length - o then none else pure (b, (b.drop o).take l)
+    | _ => none
+
+def parseNeedle (buf : Bytes) (hayNull : Bool) (tok : String) : Option Bytes :=
+  if tok.startsWith "@" then do
+    if hayNull then none
+    let (o, l) ← parseOffLen (tok.drop 1).toString
+    if o > buf.length ∨ l > buf.length - o then none else pure ((buf.drop o).take l)
+  else (parseHay tok).map (·.2)
+
+/-! ### huge views (closed forms of Model/C18Huge.lean) -/
+
+def parseHV (tok : String) : Option Huge.View := do
+  let (o, l) ← parseOffLen tok
+  if o > Huge.size ∨ l > Huge.size - o then none else pure ⟨o, l⟩
+
+def parseCount (tok : String) : Option Nat :=
+  if tok = "n" then some npos else if tok.length > 19 then none else tok.toNat?
+
+def sixOfSign (c : Int) : String :=
+  cat [bit (c == 0), bit (c != 0), bit (c < 0), bit (c > 0), bit (c ≤ 0), bit (c ≥ 0)]
+
+def scanAnswer : Huge.Scan → Option String
+  | .found x => some (num x)
+  | .notFound => some "n"
+  | .outside => none
+
+def hugeAnswer (ts : List String) : Option String :=
+  match ts with
+  | [op, v, w] =>
+    if op = "hcmp" ∨ op = "hcmpx" then do
+      let v ← parseHV v; let w ← parseHV w
+      let c ← Huge.compare v w (op = "hcmpx")
+      pure (cat ["c=", sgn c, " vv=", sixOfSign c])
+    else if op = "hrm" then do
+      let v ← parseHV v; let n ← parseCount w
+      if n > v.len then none
+      else pure (cat [num n, ":", num (v.len - n), " ", "0:", num (v.len - n)])
+    else if op = "hat" then do
+      let v ← parseHV v; let pos ← parseCount w
+      pure (cat ["at=", (if pos ≥ v.len then "X" else hexByte (Huge.mem (v.off + pos))),
+        " ix=", (if pos < v.len then hexByte (Huge.mem (v.off + pos)) else "u"),
+        " fb=", (if v.len = 0 then "u" else hexByte (Huge.mem v.off) ++ hexByte (Huge.mem (v.off + v.len - 1))),
+        " sz=", num v.len, ",", num v.len, ",", bit (v.len == 0)])
+    else if op = "hsw" then do
+      let v ← parseHV v; let w ← parseHV w
+      if w.len ≤ v.len then do
+        let c1 ← Huge.compare ⟨v.off, w.len⟩ w false
+        let c2 ← Huge.compare ⟨v.off + (v.len - w.len), w.len⟩ w false
+        pure (cat ["sw=", bit (c1 == 0), " ew=", bit (c2 == 0)])
+      else pure "sw=0 ew=0"
+    else none
+  | [op, v, a, b] =>
+    if op = "hsub" then do
+      let v ← parseHV v; let pos ← parseCount a; let n ← parseCount b
+      match Huge.substr v pos n with
+      | none => pure "X"
+      | some r => pure (cat [num (r.off - v.off), ":", num r.len, ":", hex (Huge.bytesAt r 0 (min r.len 4))])
+    else if op = "hcopy" then do
+      let v ← parseHV v; let n ← parseCount a; let pos ← parseCount b
+      if n > 32 then none
+      else if pos > v.len then pure "X"
+      else
+        let room := min n (v.len - pos)
+        pure (cat [num room, ":", hex (Huge.bytesAt v pos room)])
+    else do
+      let v ← parseHV v; let set ← parseBytes a; let pos ← parseCount b
+      if set.length > 16 then none
+      else match op with
+        | "hfind" => scanAnswer (Huge.scanFwd v pos set 0)
+        | "hffo" => scanAnswer (Huge.scanFwd v pos set 1)
+        | "hffno" => scanAnswer (Huge.scanFwd v pos set 2)
+        | "hrfind" => scanAnswer (Huge.scanBwd v pos set 0)
+        | "hflo" => scanAnswer (Huge.scanBwd v pos set 1)
+        | "hflno" => scanAnswer (Huge.scanBwd v pos set 2)
+        | _ => none
+  | ["hcmp3", v, p1, n1, w] => do
+    let v ← parseHV v; let p1 ← parseCount p1; let n1 ← parseCount n1; let w ← parseHV w
+    match Huge.substr v p1 n1 with
+    | none => pure "c=X"
+    | some r => do let c ← Huge.compare r w false; pure ("c=" ++ sgn c)
+  | ["hcmp5", v, p1, n1, w, p2, n2] => do
+    let v ← parseHV v; let p1 ← parseCount p1; let n1 ← parseCount n1; let w ← parseHV w
+    let p2 ← parseCount p2; let n2 ← parseCount n2
+    match Huge.substr v p1 n1, Huge.substr w p2 n2 with
+    | some r1, some r2 => do let c ← Huge.compare r1 r2 false; pure ("c=" ++ sgn c)
+    | _, _ => pure "c=X"
+  | _ => none
+
 def step (_ : Unit) (ts : List String) : Unit × String :=
   let r : Option String := do
-    let (mode, op, ht, nt) ← (match ts with
-      | [m, o, h] => some (m, o, h, none)
-      | [m, o, h, n] => some (m, o, h, some n)
-      | _ => none)
+    let (mode, rest) ← (match ts with
+      | m :: rest => some (m, rest)
+      | [] => none)
     let I ← (if mode = "t" then some modelImpl else if mode = "s" then some specImpl else none)
-    let h ← parseBytes ht
-    let n ← (match nt with
-      | some t => (parseBytes t).map some
-      | none => some none)
-    answer I op h n
+    match rest with
+    | op :: _ =>
+      if op.startsWith "h" then hugeAnswer rest
+      else do
+        let (ht, nt) ← (match rest with
+          | [_, h] => some (h, none)
+          | [_, h, n] => some (h, some n)
+          | _ => none)
+        let (buf, h) ← parseHay ht
+        let n ← (match nt with
+          | some t => (parseNeedle buf (ht = "null") t).map some
+          | none => some none)
+        answer I op h n
+    | [] => none
   ((), r.getD "bad-op")
 
 def main : IO Unit := Drv.loop () step
